@@ -491,7 +491,10 @@ inst("int_clearBasis", "SoPlexBase<R>::clearBasis()", "void " + P + "clearBasis(
 # PUBLIC RATIONAL modifiers (C07 F2; C06 F1 invalidation)
 # ------------------------------------------------------------------------------------------------
 RP = ("C07", "C06")
-ONLY_MUT = ("== SYNCMODE_ONLYREAL", "== SYNCMODE_MANUAL")
+# seeded fault for "returns before touching anything": the solution is invalidated before the early return
+# (a fault that lets the body run on in real-only mode dereferences the null rational LP hundreds of times and makes
+# cbmc's JSON output ~600 MB per run)
+ONLY_MUT = (r"(== SYNCMODE_ONLYREAL\)\s*)return;", r"\1{ _invalidateSolution(); return; }", True)
 
 
 def types_loop_rat(n, isrow, var="i"):
